@@ -4,6 +4,8 @@ import (
 	"os"
 
 	_ "verif/checks/c05"
+	_ "verif/checks/c10"
+	_ "verif/checks/c19"
 	"verif/internal/ev"
 )
 
